@@ -117,6 +117,34 @@ def check_aspire_level(chk, r, n):
                      f"Aspire.n_likelihood_evaluations = {a.n_likelihood_evaluations}, points = {t.points_like}", {"clause": "count", "level": "aspire"})
 
 
+def check_convert_to_samples(chk):
+    """the call site `Aspire.convert_to_samples(x, evaluate=True)` (prior, then likelihood on the set that carries it).  On the pinned tree the
+    method cannot get that far (`samples.xp.to_device` does not exist in the array namespaces: AttributeError before the prior is stored) - that is
+    counted, not failed: no likelihood call happens, so the property has nothing to say.  On a tree where the method works, the likelihood must
+    see the prior of exactly the points it is handed."""
+    from .. import aspire_level as al
+
+    for nsn in ("numpy", "torch"):
+        t = smcrun.Target(2, half=3.0)
+        a = al.make_aspire(t, dims=2, half=3.0, xp_name=nsn)
+        x = np.random.default_rng(8).uniform(-4, 4, (30, 2))
+        case = {"level": "convert_to_samples", "ns": nsn}
+        chk.count("convert_to_samples")
+        chk.case(None, json.dumps(case))
+        try:
+            a.convert_to_samples(ns.get_xp(nsn).asarray(x), log_q=ns.get_xp(nsn).asarray(np.zeros(30)))
+        except AttributeError:
+            chk.count("convert_to_samples:unreachable_on_this_tree(AttributeError)")
+            continue
+        except Exception as exc:   # noqa
+            chk.count("convert_to_samples:raised:" + type(exc).__name__)
+            continue
+        bad = [c for c in t.calls if c[0] == "L" and not (c[2] and c[3])]
+        if bad:
+            chk.fail("the sample set handed to the likelihood carries the log-prior of exactly those points", case,
+                     f"convert_to_samples: {len(bad)} likelihood call(s) without the matching prior", {"clause": "attached", "level": "convert_to_samples"})
+
+
 def check_several_objects(chk, r, n):
     """the count belongs to ONE sampler object: several samplers (and Aspire objects) alive in one process, built and run in an
     interleaved order, each report the points THEIR likelihood was asked to evaluate - building or running another object changes
@@ -249,6 +277,7 @@ def run(chk: core.Check):
         chk.count("large_population_runs")
         check_run(chk, cfg, [], [])
     check_nonfinite_draws(chk)
+    check_convert_to_samples(chk)
     check_aspire_level(chk, r, 9 if quick else 90)
     check_several_objects(chk, r, 14 if quick else 56)
     for (case, reported, like_sizes), rep in zip(keep, drv.batch(lines)):
